@@ -575,3 +575,18 @@ Qed.
 Example closers_return_example :
   closers_return VNil [KSeq [] (mkEnv [] []) []; KCallB 3 true] [KPcall None].
 Proof. simpl. auto. Qed.
+
+(* ------------------------------------------------------------ generic for: the nil test *)
+
+(* the loop ends exactly when the first value delivered by the iterator is nil (or there
+   is none); `false` is an ordinary control value and the body runs *)
+Theorem forin_ends_on_nil : forall xs f s b ρ ln k σ tr ln0 cs vs,
+  first vs = VNil ->
+  step (mkCfg (CRet vs) (KForInC xs f s b ρ ln :: k) σ tr ln0 cs) = inl (mkCfg CDone k σ tr ln0 cs).
+Proof. intros. unfold step. cbn [ctl stk step_ret]. rewrite H. reflexivity. Qed.
+
+Theorem forin_continues_on_false : forall xs f s b ρ ln k σ tr ln0 cs bb vs,
+  step (mkCfg (CRet (VBool bb :: vs)) (KForInC xs f s b ρ ln :: k) σ tr ln0 cs) =
+  inl (let '(ρv, s', _) := bind_names xs (VBool bb :: vs) (vars ρ) σ in
+       mkCfg (CBlock b (mkEnv ρv (va ρ)) []) (KForIn xs f s (VBool bb) b ρ ln :: k) s' tr ln0 cs).
+Proof. intros. apply fresh_cells_per_iteration_forin. discriminate. Qed.
